@@ -1,6 +1,6 @@
-(* Proofs/SafeIdent.v — the names produced by Filters.safe_name are Python identifiers
-   and never one of xsdata's reserved words; the only Python keyword that can come out
-   is the one missing from text.stop_words ("await"). *)
+(* Proofs/SafeIdent.v — the names produced by Filters.safe_name are Python identifiers,
+   never one of xsdata's reserved words and hence never a Python keyword (every keyword is
+   reserved since the fix for C07-F1). *)
 From Coq Require Import NArith PeanoNat List Bool Lia String.
 From XV Require Import Base.Str Base.PyInt Gen.SafeTables Model.Safe Spec.PyIdent
   Proofs.SafeText Proofs.SafeCase Proofs.SafeTerm.
@@ -64,38 +64,26 @@ Qed.
 (* ---- keywords ------------------------------------------------------------------ *)
 Definition missing_keywords : list str := filter (fun w => negb (is_reserved w)) keywords.
 
-Lemma missing_keywords_is_await : missing_keywords = [PyIdent.lit "await"].
+(* every Python keyword is one of xsdata's reserved words (since `await` was added: C07-F1) *)
+Lemma missing_keywords_none : missing_keywords = [].
 Proof. vm_compute. reflexivity. Qed.
 
-Lemma keyword_not_reserved_await r : is_keyword r = true -> is_reserved r = false -> r = PyIdent.lit "await".
+Lemma keyword_is_reserved r : is_keyword r = true -> is_reserved r = true.
 Proof.
-  intros Hk Hr.
+  intros Hk. destruct (is_reserved r) eqn:Hr; [reflexivity|]. exfalso.
   assert (Hin : In r missing_keywords).
   { unfold missing_keywords. apply filter_In. split; [|rewrite Hr; reflexivity].
     unfold is_keyword in Hk. apply existsb_exists in Hk as [w [Hw He]].
     apply str_eqb_eq in He. subst. exact Hw. }
-  rewrite missing_keywords_is_await in Hin. destruct Hin as [<-|[]]. reflexivity.
+  rewrite missing_keywords_none in Hin. destruct Hin.
 Qed.
 
 Theorem safe_name_is_identifier p k fuel name r :
-  split_based k = true -> safe_name fuel p (apply_case k) name = SOk r ->
-  is_identifier r /\ (keyword r -> r = PyIdent.lit "await").
+  split_based k = true -> safe_name fuel p (apply_case k) name = SOk r -> usable_name r.
 Proof.
   intros Hk H. destruct (safe_name_split_identifier p k fuel name r Hk H) as [Hi Hr].
-  split; [exact Hi|]. intros Hkw. apply keyword_not_reserved_await; assumption.
+  split; [exact Hi|]. intros Hkw. apply keyword_is_reserved in Hkw. congruence.
 Qed.
-
-Theorem safe_name_usable p k fuel name r :
-  split_based k = true -> safe_name fuel p (apply_case k) name = SOk r ->
-  r <> PyIdent.lit "await" -> usable_name r.
-Proof.
-  intros Hk H Hne. destruct (safe_name_is_identifier p k fuel name r Hk H) as [Hi Hkw].
-  split; [exact Hi|]. intros K. apply Hne, Hkw, K.
-Qed.
-
-Theorem safe_name_is_identifier_refuted :
-  exists name r, field_name default_conventions name = SOk r /\ keyword r.
-Proof. exists (Safe.lit "await"), (Safe.lit "await"). split; vm_compute; reflexivity. Qed.
 
 (* ---- original_case: Unicode word characters pass through ------------------------ *)
 Lemma ascii_word_id_continue c : c < 128 -> py_word c = true -> id_continue c = true.
@@ -146,13 +134,12 @@ Qed.
 (* ASCII-only statement: no non-ASCII word characters in name and prefix *)
 Theorem safe_name_original_ascii p fuel name r :
   original_guard (fun _ => false) name = true -> original_guard (fun _ => false) p = true ->
-  safe_name fuel p (apply_case Original) name = SOk r ->
-  is_identifier r /\ (keyword r -> r = PyIdent.lit "await").
+  safe_name fuel p (apply_case Original) name = SOk r -> usable_name r.
 Proof.
   intros Gn Gp H.
   destruct (safe_name_original_identifier (fun _ => false) (fun _ => false) p fuel name r Gn Gp H) as [Hi Hr].
   rewrite identifier_with_false in Hi. split; [exact Hi|].
-  intros K. apply keyword_not_reserved_await; assumption.
+  intros K. apply keyword_is_reserved in K. congruence.
 Qed.
 
 (* "a²": SUPERSCRIPT TWO is alphanumeric for `re` (\w) but not XID_Continue *)
